@@ -255,6 +255,20 @@ fn boundary_family(thorough: bool) -> Vec<Vec<u32>> {
             }
         }
     }
+    // deltas of 7, 8 and 9 digits that still decode to a VALID scalar: many basic code points and one high
+    // code point, so that delta = (high - 0x80) * (n + 1) + pos lies between 35^2 * 10^4 and 2^32 while
+    // delta / (n + 1) stays below 0x110000 (a decoder whose weight check is too strict returns None here)
+    let ns: &[usize] = if thorough { &[30, 300, 1000, 2000, 3000, 3177, 3300, 3501, 3700, 3854] } else { &[300, 3000, 3300, 3501, 3854] };
+    for &n in ns {
+        for &h in &[0xffffu32, 0x10ffff] {
+            let mut s = vec![0x61u32; n];
+            s.push(h);
+            v.push(s);
+            let mut s = vec![0x61u32; n];
+            s.insert(0, h);
+            v.push(s);
+        }
+    }
     v
 }
 /// digits (lower case) of `delta` as a generalized variable-length integer for a given bias
